@@ -63,7 +63,10 @@ def check(tier, seed):
                     d2 = dict(desc, field=fn, value=v)
                     cases.append(Case('edit-one-field', f'decsetenc {e["kindspec"]} {C.hexs(pay)} {fn} {v}', impl2, d2, kind=name + '/edit'))
                     # direct locality check on the implementation
-                    if not impl2.startswith('!') and not impl.startswith('!'):
+                    if impl2.endswith('EARLIER-PAYLOAD-OBJECT-CHANGED'):
+                        res.violation(f'editing {name}.{fn} and re-encoding changed the payload object obtained from the earlier pack()',
+                                      {'property': 'C08', 'input': d2, 'after': impl2}, f'c08-alias|{name}')
+                    elif not impl2.startswith('!') and not impl.startswith('!'):
                         a = bytes.fromhex(impl) if impl != '-' else b''
                         b = bytes.fromhex(impl2) if impl2 != '-' else b''
                         off = F.size_of(lay[:[n for n, _ in lay].index(fn)])
